@@ -687,6 +687,12 @@ impl PackageMetadata {
         self.get_scriptlet(POSTUNTRANS_TAGS)
     }
 
+    /// Get the %verifyscript scriptlet for this package
+    #[inline]
+    pub fn get_verify_script(&self) -> Result<Scriptlet, Error> {
+        self.get_scriptlet(VERIFYSCRIPT_TAGS)
+    }
+
     fn get_dependencies(
         &self,
         names_tag: IndexTag,
